@@ -239,3 +239,41 @@ def _serialization_flag_guard(repo):
     lean = (f"def valueHandleBits : Nat := {bits}\n"
             f"def serializationGuardRestores : Bool := {'true' if restores else 'false'}")
     return {"handle_bits": bits, "guard_restores": restores}, lean
+
+
+def _rust_cond_to_lean(cond):
+    """translate the registry's fast-path condition into a Lean Bool expression over
+    `singleNone` / `overflowEmpty`"""
+    c = re.sub(r"\s+", " ", cond.strip())
+    c = c.replace("self.single.is_none()", "singleNone").replace("self.single.is_some()", "(!singleNone)")
+    c = c.replace("self.overflow.is_empty()", "overflowEmpty")
+    if not re.fullmatch(r"[()!&| ]*(?:(?:singleNone|overflowEmpty)[()!&| ]*)+", c):
+        raise KeyError(f"registry fast-path condition not understood: {cond!r}")
+    return c
+
+
+@item("VALUE_HANDLE_REGISTRY")
+def _value_handle_registry(repo):
+    src = read(repo, "minijinja/src/value/mod.rs")
+    imp = fn_body(src, r"impl ValueHandleRegistry\s*\{")
+    ins = fn_body(imp, r"pub\(crate\) fn insert\(&mut self, handle: u32, value: Value\)\s*\{")
+    m = re.match(r"\s*if (.*?)\s*\{\s*self\.single = Some\(\(handle, value\)\);\s*return;\s*\}\s*(.*)$", ins, re.S)
+    if not m:
+        raise KeyError("ValueHandleRegistry::insert fast path")
+    cond = _rust_cond_to_lean(m.group(1))
+    spill = re.sub(r"\s+", " ", m.group(2).strip())
+    want_spill = ("if let Some((other_handle, other_value)) = self.single.take() { self.overflow.insert(other_handle, other_value); } "
+                  "self.overflow.insert(handle, value);")
+    if spill != want_spill:
+        raise KeyError("ValueHandleRegistry::insert spill path changed")
+    rem = re.sub(r"\s+", " ", fn_body(imp, r"pub\(crate\) fn remove\(&mut self, handle: u32\) -> Option<Value>\s*\{").strip())
+    want_rem = ("if let Some((single_handle, _)) = self.single { if single_handle == handle { "
+                "return self.single.take().map(|(_, value)| value); } } self.overflow.remove(&handle)")
+    if rem != want_rem:
+        raise KeyError("ValueHandleRegistry::remove changed")
+    st = re.search(r"pub\(crate\) struct ValueHandleRegistry \{\s*single: Option<\(u32, Value\)>,\s*overflow: BTreeMap<u32, Value>,\s*\}", src)
+    if not st:
+        raise KeyError("ValueHandleRegistry fields")
+    lean = ("/-- `ValueHandleRegistry::insert`: the condition of the inline-slot fast path -/\n"
+            f"def registryInsertFastPath (singleNone overflowEmpty : Bool) : Bool := {cond}")
+    return {"fast_path": cond}, lean
